@@ -578,7 +578,10 @@ func runSet(c *core.Ctx) {
 	if w.delay != 0 {
 		opts = append(opts, keyed.WithReleaseDelay[string, int](time.Duration(w.delay)))
 	}
-	if w.retry && c.S.PlanP(400) {
+	if w.retry && c.S.PlanP(200) {
+		// an exponential configuration whose intervals never exceed the same bound (multiplier below one: they shrink)
+		opts = append(opts, keyed.WithRetry[string, int](&ubackoff.Backoff{BackoffKind: ubackoff.BackoffKind_BackoffKind_EXPONENTIAL, Exponential: &ubackoff.Exponential{InitialInterval: uint32(retryNs / 1e6), Multiplier: 0.5, MaxInterval: uint32(retryNs / 1e6)}}))
+	} else if w.retry && c.S.PlanP(400) {
 		// the same interval through the library's own backoff configuration
 		opts = append(opts, keyed.WithRetry[string, int](&ubackoff.Backoff{BackoffKind: ubackoff.BackoffKind_BackoffKind_CONSTANT, Constant: &ubackoff.Constant{Interval: uint32(retryNs / 1e6)}}))
 	} else if w.retry {
